@@ -3,7 +3,7 @@
    (b) every response layout with every scripted status code. *)
 EXTENDS Request, Json
 VARIABLE c
-Init == c \in {[k |-> "param", p |-> p, L |-> "-"] : p \in Params} \cup {[k |-> "resp", p |-> <<>>, L |-> L] : L \in DOMAIN Layouts}
+Init == c \in {[k |-> "param", p |-> p, L |-> "-"] : p \in ParamsC04} \cup {[k |-> "resp", p |-> <<>>, L |-> L] : L \in DOMAIN Layouts}
 Next == UNCHANGED c
 Emit ==
   IF c.k = "param"
